@@ -45,8 +45,12 @@ def draw_layout(rng):
 
 def draw_params(rng, small=False):
     nx = int(rng.choice([64, 128, 256] if small else [64, 100, 128, 256, 512, 1024, 2048]))
-    povs = [p for p in (0.0, 0.25, 0.5, 0.75) if float(nx * p).is_integer()]
+    if rng.random() < 0.2:
+        nx = int(rng.choice([63, 101, 255] if small else [63, 101, 255, 1023]))  # odd segment lengths
+    povs = [p for p in (0.0, 0.25, 0.5, 0.75) if float(nx * p).is_integer()] or [0.0]
     pov = float(rng.choice(povs))
+    if rng.random() < 0.3:
+        pov = float(rng.choice([0.1, 0.3, 0.66, 0.7, 0.8, 0.9, round(float(rng.uniform(0.05, 0.9)), 3)]))  # any fraction: both paths cut it to whole samples alike
     method = "per" if rng.random() < 0.6 else "cor"
     N = int(nx * rng.uniform(4, 12))
     fs = float(10 ** rng.uniform(0, 3))
